@@ -58,7 +58,7 @@ func replayCase(a *checkArgs, r *Result, prop string) (handled bool, err error) 
 		json.Unmarshal(rp.Case, &c)
 		gxz := os.Getenv("XZH_GXZ")
 		if gxz == "" {
-			gxz = "/verif/harness/gxz-bin"
+			gxz = verifRoot() + "/harness/gxz-bin"
 		}
 		var inj *injection
 		for i := range injections {
@@ -72,7 +72,7 @@ func replayCase(a *checkArgs, r *Result, prop string) (handled bool, err error) 
 		json.Unmarshal(rp.Case, &c)
 		gxz := os.Getenv("XZH_GXZ")
 		if gxz == "" {
-			gxz = "/verif/harness/gxz-bin"
+			gxz = verifRoot() + "/harness/gxz-bin"
 		}
 		runCliCase(r, dp, gxz, c)
 	case "read-prefix", "read-mutant", "read-valid", "read-chain", "read-arbitrary", "read-chunk-sequence":
